@@ -32,11 +32,11 @@ where
     T: Hash + Eq + Clone + Ord + Display + Send + Sync,
     A: Clone + Send + Sync,
 {
+    let all_neighbors_map = get_neighbors_of_nodes(None, graph);
     let neighbors_map = get_neighbors_of_nodes(node_names, graph);
     neighbors_map
-        .clone()
         .into_iter()
-        .map(|(v, v_nbrs)| get_triangles_and_degrees_for_node(v, v_nbrs, &neighbors_map))
+        .map(|(v, v_nbrs)| get_triangles_and_degrees_for_node(v, v_nbrs, &all_neighbors_map))
         .collect()
 }
 
